@@ -148,7 +148,7 @@ class Verifier:
         npaths = 0
         exits = {'return': 0, 'raise': {}, 'cut': 0}
         info = {'key': key, 'paths': 0, 'exits': exits, 'assumed': set(), 'source_hash': self.repo.source_hash(key)
-                if '<locals>' not in key else ''}
+                if ('<locals>' not in key and not key.startswith('harness:')) else ''}
         reached = False
         while True:
             ip = Interp(self, decisions)
@@ -189,7 +189,43 @@ class Verifier:
         info['reached'] = reached
         return results, info
 
+    def run_harness(self, ip, key, c):
+        import textwrap
+        relpath, body, inline = c.harness
+        mod = self.repo.module(relpath)
+        ip.cur_props = c.props
+        ip.cur_fn = key.replace(':', '.')
+        saved_inline = set(self.reg.inline)
+        self.reg.inline |= set(inline)
+        hidden = {k: self.reg.contracts.pop(k) for k in inline if k in self.reg.contracts}
+        try:
+            env = {p: k.fresh(ip, p) for p, k in c.params.items()}
+            fr = Frame(mod, key, env, contract=None)
+            for lab, req in c.requires:
+                ip.assume(ip.spec_bool(req, env))
+            fr.old = ip.snapshot(env)
+            ip.entry_env = fr.old
+            ip.reached = True
+            for st in ast.parse(textwrap.dedent(body)).body:
+                if isinstance(st, ast.ImportFrom):
+                    for a in st.names:
+                        m2 = self.repo.module_by_dotted(st.module)
+                        fr.env[a.asname or a.name] = ip.lookup_global(a.name, m2)
+                    continue
+                ip.exec_stmt(st, fr)
+            senv = ip.spec_env(fr)
+            for lab, ens in c.ensures:
+                ip.prove(f'{ip.cur_fn}.{lab}', ip.spec_bool(ens, senv, fr.old))
+            return ('return',)
+        except PyRaise as e:
+            ip.fail(f'{ip.cur_fn}.raises.{e.exc.typ}', f'{e.exc.typ} escapes the harness')
+        finally:
+            self.reg.inline = saved_inline
+            self.reg.contracts.update(hidden)
+
     def run_function(self, ip, key, c):
+        if getattr(c, 'harness', None):
+            return self.run_harness(ip, key, c)
         mod, fnode = self.repo.function(key) if '<locals>' not in key else \
             (self.repo.module(key.split(':')[0]), self.repo.module(key.split(':')[0]).functions[key.split(':')[1]])
         ip.cur_props = c.props
